@@ -13,6 +13,7 @@ import c19_child as CH
 
 CHILD = os.path.join(os.path.dirname(os.path.abspath(CH.__file__)), 'c19_child.py')
 VALIDATORS = ['Draft3Validator', 'Draft4Validator']
+MORE_VALIDATORS = ['Draft6Validator', 'Draft7Validator']      # the other classes a caller may pass (main schemas only)
 EXPECTED_ERR = {'sv': 'SchemaError', 'va': 'ValidationError'}
 FN_NAME = {'sv': 'athlib.utils.schema_valid', 'va': 'athlib.utils.valid_against_schema'}
 KINDS = ['athlete', 'combined_performance', 'competition', 'event', 'performance']
@@ -34,7 +35,7 @@ def domain(ctx):
     va_schemas = main if ctx.quick() else main + defs
     calls = []
     for s in main + defs:
-        for v in VALIDATORS:
+        for v in VALIDATORS + (MORE_VALIDATORS if s in main else []):
             for ef in (False, True):
                 calls.append(('sv', s, v, ef))
     for sch in va_schemas:
@@ -158,9 +159,16 @@ def sequences(ctx, main, defs, samples, calls):
     # 1. schema_valid: every sequence of length <= 3 over the four calls of one schema file (both validators,
     #    both flags) — covers "same key" and "same file, other validator" exhaustively
     for s, cs in sorted(sv_by_schema.items()):
+        old_cs = [c for c in cs if c[2] in VALIDATORS]
         for n in (1, 2, 3):
-            for t in itertools.product(cs, repeat=n):
+            # quick: length 3 exhaustively over the two customary validator classes, length <= 2 over all four, and a
+            # seeded sample of length-3 sequences that mix them; thorough: everything
+            pool = cs if (n <= 2 or not quick) else old_cs
+            for t in itertools.product(pool, repeat=n):
                 seqs.append(('sv-file', t))
+        if quick and len(cs) > len(old_cs):
+            for _ in range(40):
+                seqs.append(('sv-file', tuple(rng.choice(cs) for _ in range(3))))
     # 2. valid_against_schema: every flag sequence of length <= 3 on one key
     va_keys = sorted(k for k in by_key if k[0] == 'va')
     chosen = va_keys
